@@ -740,6 +740,7 @@ def listing_edits(B, rec, case):
         boffs = {b["id"]: b["off"] for b in r["before"]["blocks"]}
         led["_pos"] = boffs.get(r["do"]["block"], -1) + r["do"]["offset"]
         led["_base"] = boffs.get(led["block"])
+        led["_rec"] = len(out)          # index of the recorded insert/delete call that carried it out
         out.append(led)
     return out
 
